@@ -619,4 +619,7 @@ func checkTypeLockPairing(c *Ctx, r *Rec, rule string, n *types.Named) {
 			}
 		}
 	}
+	if strings.HasSuffix(rule, "lock-released") {
+		checkTypeNoReentry(c, r, strings.TrimSuffix(rule, "lock-released")+"no-reentry-under-lock", n)
+	}
 }
